@@ -107,4 +107,44 @@ def Graph.slidingDeltaConformity (dg : Graph) (delta : Int) (alphas : List Nat) 
           if acc.any (fun e => e.1 == ar.1) then acc.map (fun e => if e.1 == ar.1 then (e.1, cur') else e)
           else acc ++ [(ar.1, cur')]) acc)) []
 
+/-! ### any exponent: the powers `d ** alpha` as a table of positive weights
+
+  `partial = sim / (dist ** alpha)` and `norm = sum(d ** -alpha for d in 1..max_dist)` only use the numbers
+  `w d = d ** alpha`.  For a natural exponent `w d = (d : Rat) ^ alpha` (`nodeScore` above); for a fractional
+  exponent Python computes a positive float, which is a rational number: the model below takes the table `w` as a
+  parameter, so it covers every exponent (theorem `C20W_bound`: the score lies in [-1, 1] for EVERY table of positive
+  weights). -/
+
+def normConstW (w : Nat → Rat) (maxDist : Nat) : Rat :=
+  ((List.range maxDist).map (fun i => (1 : Rat) / w (i + 1))).foldl (· + ·) 0
+
+def nodeScoreW (g : Graph) (sp : List ((Node × Node) × List TPath)) (ptype : Nat) (w : Nat → Rat) (u : Node) : Rat :=
+  let td := tDistances sp ptype u
+  let dist := remapDistances td
+  let ranks := sortedSetNat (dist.map (·.2))
+  let raw := (ranks.map (fun (d : Nat) =>
+    if d == 0 then (0 : Rat)
+    else
+      let nodes := (dist.filter (fun e => e.2 == d)).map (·.1)
+      labelFrequency g u nodes td / w d)).foldl (· + ·) 0
+  match ranks.getLast? with
+  | none => raw
+  | some mx => raw / normConstW w mx
+
+/-- `delta_conformity` with each exponent given by its key and its table of powers -/
+def Graph.deltaConformityW (dg : Graph) (start delta : Int) (alphas : List (Nat × (Nat → Rat))) (ptype : Nat) :
+    Except Err (Option (List (Nat × List (Node × Rat)))) :=
+  match dg.timeSlice start (some (start + delta)) with
+  | .error e => .error e
+  | .ok g =>
+    let tids := g.ids
+    match minList tids, maxList tids with
+    | some mmid, some mid =>
+      match g.allTimeRespectingPaths (some (max start mmid)) (some (min mid (start + delta))) none with
+      | .error e => .error e
+      | .ok sp =>
+        let nodes := g.nodesAt (some start)
+        .ok (some (alphas.map (fun a => (a.1, nodes.map (fun u => (u, nodeScoreW g sp ptype a.2 u))))))
+    | _, _ => .ok none
+
 end Dynetx
